@@ -29,7 +29,7 @@ static int ncond;
 static vs_shared_t *S;
 static const uint8_t *P, *PN;
 static uint32_t PL;
-static int BOUND, SPUR_LEFT, VERBOSE;
+static int BOUND, SPUR_LEFT, VERBOSE, UNLOCK_POINT;
 static vs_visited_t *VIS;
 static vs_hash_cb_t HCB;
 static __thread int self_id;
@@ -52,6 +52,7 @@ void vs_setup(vs_shared_t *sh, const uint8_t *prefix, const uint8_t *prefix_nen,
 {
 	S = sh; P = prefix; PN = prefix_nen; PL = prefix_len;
 	BOUND = bound; SPUR_LEFT = spurious_budget; VIS = vis; VERBOSE = verbose;
+	UNLOCK_POINT = getenv("VS_UNLOCK_POINT") != NULL;
 	memset(th, 0, sizeof(th));
 	nth = 1; cur = 0; self_id = 0;
 	th[0].st = T_RUN;
@@ -292,6 +293,12 @@ int vs_mutex_unlock(void *m, int pc)
 		vs_fail(VS_ORACLE, "T%d unlocks a mutex it does not hold (pc %d)", self, pc);
 	mtx_owner[i] = -1;
 	th[self].pc = pc;
+	/* scheduling point after the release: what the thread does next without the lock can interleave with
+	   threads that were waiting for it (optional: VS_UNLOCK_POINT) */
+	if (UNLOCK_POINT) {
+		th[self].st = T_RUN;
+		schedule();
+	}
 	return 0;
 }
 
@@ -317,6 +324,10 @@ int vs_cond_wait(void *c, void *m, int pc)
 	int ci = find_cond(c), mi = find_mtx(m), self = self_id;
 	if (mtx_owner[mi] != self)
 		vs_fail(VS_ORACLE, "T%d cond_wait without holding the mutex (pc %d)", self, pc);
+	/* scheduling point between the (locked) evaluation of the wait condition and the wait itself: threads that
+	   touch the shared state WITHOUT the mutex can run here (lost wake-up window) */
+	th[self].st = T_RUN; th[self].pc = -pc;
+	schedule();
 	mtx_owner[mi] = -1;
 	th[self].st = T_COND; th[self].obj = ci; th[self].obj2 = mi; th[self].woken = 0; th[self].pc = pc;
 	schedule();
